@@ -120,7 +120,7 @@ def _is_translated_regex(prog, func, recv):
 def run(ctx):
     prog = ctx.prog
     ce = ConstEval(prog)
-    ctx.clauses_decided = ["R1 selection structure", "R2 registry determinism and pattern overlaps", "R3 declared names exist", "R4 result keys are constructor arguments", "R5 guaranteed means set", "R6 declared-list protocol", "R7 decorators attach the declared lists unchanged (evaluated)"]
+    ctx.clauses_decided = ["R1 selection structure", "R2 registry determinism and pattern overlaps", "R3 declared names exist", "R4 result keys are constructor arguments", "R5 guaranteed means set", "R6 declared-list protocol", "R7 decorators attach the declared lists unchanged (evaluated)", "R8 patterns frozen and disjoint", "R9 registry builders (evaluated)"]
     ctx.clauses_declined = ["case-folding behaviour of fnmatch per platform"]
     ctor_names, all_names = iodata_attr_names(prog)
     fm = prog.format_modules()
@@ -350,6 +350,10 @@ def run(ctx):
     # ------------------------------------------------------------------ R7
     ctx.rule("R7", "the decorators attach the declared lists as written (evaluated)", "the lists that iodata reports for a format differ from the ones its source declares (names wrapped in markup, a default shared between functions, lists swapped)")
     _check_decorator_passthrough(ctx)
+    ctx.rule("R8", "file-name patterns are the documented ones; no pattern is shared by two modules with the same operation", "`*.out` added to the Gaussian log patterns: ORCA outputs are loaded as Gaussian logs (or a documented extension is no longer recognised)")
+    check_patterns_frozen(ctx, "R8", ce)
+    ctx.rule("R9", "the registries are built from every module that carries the marker attribute (evaluated on a model listing)", "a format with an empty pattern list (QCSchema) vanishes from the registry, or modules are registered under another key / order")
+    check_registry_builders(ctx, "R9")
 
 
 DECLARED = {"guaranteed", "ifpresent", "required", "optional"}
@@ -425,3 +429,89 @@ def _check_decorator_passthrough(ctx):
 
 def _hasattr_call(n, attrparam):
     return isinstance(n, ast.Call) and isinstance(n.func, ast.Name) and n.func.id == "hasattr" and len(n.args) == 2 and isinstance(n.args[1], ast.Name) and n.args[1].id == attrparam
+
+
+def check_patterns_frozen(ctx, rid, ce):
+    """The file-name patterns of every format module are the documented ones (spec/patterns.json), and no two
+    modules that share an operation claim the same pattern (selection between them would depend on module order)."""
+    import json
+    import os
+
+    prog = ctx.prog
+    with open(os.path.join(os.path.dirname(os.path.dirname(os.path.dirname(os.path.abspath(__file__)))), "spec", "patterns.json")) as fh:
+        spec = json.load(fh)["formats"]
+    fm = prog.format_modules()
+    seen = {}
+    for short, m in sorted(fm.items()):
+        try:
+            pats = ce.global_value(m, "PATTERNS")
+        except (NotConstant, KeyError) as exc:
+            raise AnalysisError(f"{m.name}.PATTERNS is not a constant: {exc}") from exc
+        where = f"{m.relpath}:{m.bindings['PATTERNS'].stmt.lineno}" if "PATTERNS" in m.bindings else m.relpath
+        if short not in spec:
+            ctx.violate(rid, f"format module `{short}` has no documented patterns in spec/patterns.json (new module: add them)", relpath=m.relpath, function=f"{m.name}.PATTERNS", construct=f"{short}: patterns not in spec")
+        elif sorted(pats) != sorted(spec[short]):
+            ctx.violate(rid, f"{short}.PATTERNS is {sorted(pats)}, the documented patterns are {sorted(spec[short])}: files are attributed to another format (or to none)", relpath=m.relpath, function=f"{m.name}.PATTERNS", construct=f"{short}.PATTERNS = {sorted(pats)}")
+        else:
+            ctx.ok(rid, f"{short}: {sorted(pats)}", where, sample=False)
+        for p_ in pats:
+            for op in OPS:
+                if prog.funcs.get(f"{m.name}.{op}") is not None:
+                    seen.setdefault((p_.lower(), op), []).append(short)
+    for (p_, op), mods in sorted(seen.items()):
+        if len(mods) > 1:
+            ctx.violate(rid, f"the pattern `{p_}` is claimed by {mods} for {op}: which format reads / writes such a file depends on the order of the modules", relpath=fm[mods[1]].relpath, function=f"{fm[mods[1]].name}.PATTERNS", construct=f"pattern {p_} shared by {mods} for {op}")
+    for short in sorted(set(spec) - set(fm)):
+        ctx.violate(rid, f"documented format `{short}` has no module any more", relpath="iodata/formats", function="iodata.formats", construct=f"format {short} missing")
+    ctx.floor(rid, len(fm), 20, "format modules")
+
+
+def check_registry_builders(ctx, rid):
+    """`_find_format_modules` / `_find_input_modules`, evaluated on a model package listing: every non-package module
+    that has the marker attribute is registered under its own name, in listing order -- also one whose PATTERNS list
+    is empty (it is still selectable with an explicit `fmt`)."""
+    from ..accessors import AccessorEval, Raised, Rec
+    from ..symarr import NotSymbolic
+
+    prog = ctx.prog
+    for q, pkg, marker in (("iodata.api._find_format_modules", "iodata.formats", "PATTERNS"), ("iodata.api._find_input_modules", "iodata.inputs", "write_input")):
+        f = prog.funcs.get(q)
+        if f is None:
+            raise AnalysisError(f"{q} not found")
+        mods = {
+            "alpha": Rec(None, **{marker: ["*.a"]}),
+            "beta_pkg": Rec(None, **{marker: ["*.b"]}),
+            "gamma": Rec(None, other=1),
+            "delta": Rec(None, **{marker: []}),
+        }
+        listing = [Rec(None, name="alpha", ispkg=False), Rec(None, name="beta_pkg", ispkg=True), Rec(None, name="gamma", ispkg=False), Rec(None, name="delta", ispkg=False)]
+
+        def imp(args, kw, pkg=pkg, mods=mods):
+            name = args[0]
+            if name == pkg:
+                return Rec(None, __path__=["PKGPATH"])
+            if isinstance(name, str) and name.startswith(pkg + ".") and name[len(pkg) + 1:] in mods:
+                return mods[name[len(pkg) + 1:]]
+            raise Raised("ModuleNotFoundError")
+
+        def itm(args, kw, listing=listing):
+            if not args or args[0] != ["PKGPATH"]:
+                raise Raised("TypeError")
+            return list(listing)
+
+        ev = AccessorEval(prog, None, limit=2000)
+        ev.module = f.module
+        ev.ext_stubs = {"importlib.import_module": imp, "pkgutil.iter_modules": itm}
+        try:
+            res = ev.run_free(f, [], {})
+        except Raised as exc:
+            ctx.violate(rid, f"{f.name} raises {exc.args[0]} on a model package listing", f, f.node, construct=f"{f.name} raises")
+            continue
+        except NotSymbolic as exc:
+            raise AnalysisError(f"{q} is outside the evaluation whitelist: {exc}") from exc
+        want = [("alpha", mods["alpha"]), ("delta", mods["delta"])]
+        got = list(res.items()) if isinstance(res, dict) else None
+        if got is not None and len(got) == len(want) and all(g[0] == w[0] and g[1] is w[1] for g, w in zip(got, want)):
+            ctx.ok(rid, f"{f.name}: modules with `{marker}` (also an empty one) are registered under their own names in listing order; packages and modules without it are skipped", f.where)
+        else:
+            ctx.violate(rid, f"{f.name} on a model listing [alpha, beta_pkg (package), gamma (no {marker}), delta ({marker} empty)] registers {[g[0] for g in got] if got is not None else res!r}, expected ['alpha', 'delta'] mapped to their modules", f, f.node, construct=f"{f.name}: registers {[g[0] for g in got] if got is not None else None}")
